@@ -297,17 +297,22 @@ class BehavioralRTLIRToVVisitorL1( bir.BehavioralRTLIRNodeVisitor ):
   # visit_ZeroExt
   #-----------------------------------------------------------------------
 
+  def visit_expr_wrap( s, node ):
+    """Visit an operand; levels that have operators bracket a compound
+    operand (overridden at L2)."""
+    return s.visit( node )
+
   def visit_ZeroExt( s, node ):
     node.value._top_expr = True
 
-    value = s.visit( node.value )
     target_nbits = node.nbits
     current_nbits = int(node.value.Type.get_dtype().get_length())
     padded_nbits = target_nbits - current_nbits
     if padded_nbits == 0:
-      return value
-    else:
-      return f"{{ {{ {padded_nbits} {{ 1'b0 }} }}, {value} }}"
+      # Nothing to extend, but the operand must stay one operand
+      return s.visit_expr_wrap( node.value )
+    value = s.visit( node.value )
+    return f"{{ {{ {padded_nbits} {{ 1'b0 }} }}, {value} }}"
 
   #-----------------------------------------------------------------------
   # visit_SignExt
@@ -319,14 +324,16 @@ class BehavioralRTLIRToVVisitorL1( bir.BehavioralRTLIRNodeVisitor ):
   def visit_SignExt( s, node ):
     node.value._top_expr = True
 
-    value = s.visit( node.value )
     target_nbits = node.nbits
     current_nbits = int(node.value.Type.get_dtype().get_length())
     last_bit = current_nbits - 1
     padded_nbits = target_nbits - current_nbits
 
     if padded_nbits == 0:
-      return value
+      # Nothing to extend, but the operand must stay one operand
+      return s.visit_expr_wrap( node.value )
+
+    value = s.visit( node.value )
 
     template = "{{ {{ {padded_nbits} {{ {value}[{last_bit}] }} }}, {value} }}"
     one_bit_template = "{{ {{ {padded_nbits} {{ {_value} }} }}, {value} }}"
@@ -378,12 +385,13 @@ class BehavioralRTLIRToVVisitorL1( bir.BehavioralRTLIRNodeVisitor ):
 
   def visit_Truncate( s, node ):
     nbits = node.nbits
-    value = s.visit( node.value )
     dtype = node.value.Type.get_dtype()
     if isinstance(dtype, rdt.Vector) and dtype.get_length() > nbits:
+      value = s.visit( node.value )
       return f"{nbits}'({value})"
     else:
-      return value
+      # Nothing to truncate, but the operand must stay one operand
+      return s.visit_expr_wrap( node.value )
 
   #-----------------------------------------------------------------------
   # visit_Reduce
